@@ -394,6 +394,159 @@ def upper_bounds_pair(ctx, fn, nf, a, b):
     return None
 
 
+def loop_var_bound(sym, e):
+    """e is the item of `for i in lo..hi` / `lo..=hi`: (lo, hi, inclusive) expressions"""
+    x = strip_widen(e)
+    for _ in range(3):
+        if x[0] in ("field", "variant"):
+            x = strip_widen(x[1])
+    if not (x[0] == "callat" and x[2] == "next" and x[3]):
+        return None
+    it = x[3][0]
+    for _ in range(8):
+        it = strip_widen(it)
+        if it[0] == "local":
+            ds = [d for d in sym.defs.get(it[1], []) if d[3]]
+            if len(ds) != 1:
+                return None
+            it = sym.rvalue(ds[0][2], ds[0][0])
+        elif it[0] in ("callat", "call") and (it[2] if it[0] == "callat" else it[1]) in ("into_iter", "by_ref"):
+            it = (it[3] if it[0] == "callat" else it[2])[0]
+        else:
+            break
+    it = strip_widen(it)
+    if it[0] == "agg" and str(it[2]).endswith("ops::range::Range") and len(it[4]) == 2:
+        return (it[4][0], it[4][1], False)
+    if it[0] in ("call", "callat"):
+        nm = it[2] if it[0] == "callat" else it[1]
+        full = it[5] if it[0] == "callat" else it[4]
+        args = it[3] if it[0] == "callat" else it[2]
+        if nm == "new" and "RangeInclusive" in str(full) and len(args) == 2:
+            return (args[0], args[1], True)
+    return None
+
+
+def ordered_only(ctx, fn, facts, a, b, freedom, is_state, tr=None):
+    """a concrete assignment of the caller-controlled values (arguments, getters on them, the
+    state of `self`) that satisfies every guard connected with the two factors and makes the
+    product leave the type: found by trying a handful of magnitudes per value on the guard
+    expressions themselves. Only guards built from comparisons, +, - and small constants are
+    evaluated; anything else gives up (None)."""
+    import itertools
+    if not freedom.free.get(fn.id):
+        return None
+    tr = tr or (0, 2 ** 32 - 1)
+    sym = ctx.sym
+    var = {}            # atom -> (lo, hi) domain
+
+    def is_var(x):
+        return freedom.is_free_atom(fn, x) or is_state(x)
+
+    def dom_of(x):
+        r = None
+        try:
+            r = ctx.iv.eval(x)
+        except Exception:
+            r = None
+        if r is None or r[1] > 2 ** 64:
+            r = (0, 2 ** 32 - 1)
+        return (max(r[0], 0), r[1])
+    loops = {}
+
+    def collect(e):
+        """register the variables of e; False when e has something that is not evaluable"""
+        s = strip_widen(e)
+        if s[0] == "const":
+            return isinstance(s[1], int) and not isinstance(s[1], bool)
+        lb = loop_var_bound(sym, s)
+        if lb is not None:
+            if not (collect(lb[0]) and collect(lb[1])):
+                return False
+            loops[s] = lb
+            var.setdefault(s, (0, 2 ** 32 - 1))
+            return True
+        if s[0] == "bin" and s[1] in ("Add", "Sub"):
+            return collect(s[2]) and collect(s[3])
+        if s[0] == "ovf":
+            return collect(s[1])
+        if is_var(s):
+            var.setdefault(s, dom_of(s))
+            return True
+        return False
+
+    def ev(e, env):
+        s = strip_widen(e)
+        if s[0] == "const":
+            return s[1]
+        if s in env:
+            return env[s]
+        if s[0] == "ovf":
+            return ev(s[1], env)
+        if s[0] == "bin":
+            x, y = ev(s[2], env), ev(s[3], env)
+            if x is None or y is None:
+                return None
+            v = x + y if s[1] == "Add" else x - y
+            if v < 0 or v > 2 ** 64:
+                return None         # the guard expression itself would wrap: not a witness
+            return v
+        return None
+    if not (collect(a) and collect(b)):
+        return None
+    mine = set(var)
+    rel = []
+    grew = True
+    while grew:
+        grew = False
+        for cond, val in facts:
+            if (cond, val) in rel:
+                continue
+            fa = {strip_widen(x) for x in (atoms(cond) if cond[0] == "bin" else [cond])}
+            fa |= {k for k in var if fmt(k) in fmt(cond)}
+            if fa & mine:
+                if cond[0] != "bin" or cond[1] not in ("Lt", "Le", "Gt", "Ge", "Ne", "Eq"):
+                    return None
+                if not (collect(cond[2]) and collect(cond[3])):
+                    return None
+                rel.append((cond, val))
+                mine = set(var)
+                grew = True
+    if len(var) > 7:
+        return None
+    names = sorted(var, key=fmt)
+    cands = []
+    for k in names:
+        lo, hi = var[k]
+        cs = [c for c in (0, 1, 2, 2 ** 16, 2 ** 16 + 1, 2 ** 31, 2 ** 32 - 1, hi) if lo <= c <= hi]
+        cands.append(sorted(set(cs)))
+    CMP = {"Lt": lambda x, y: x < y, "Le": lambda x, y: x <= y, "Gt": lambda x, y: x > y,
+           "Ge": lambda x, y: x >= y, "Ne": lambda x, y: x != y, "Eq": lambda x, y: x == y}
+    for combo in itertools.product(*cands):
+        env = dict(zip(names, combo))
+        ok = True
+        for k, (lo, hi, incl) in loops.items():
+            l_, h_ = ev(lo, env), ev(hi, env)
+            if l_ is None or h_ is None or not (l_ <= env[k] and (env[k] <= h_ if incl else env[k] < h_)):
+                ok = False
+                break
+        if not ok:
+            continue
+        for cond, val in rel:
+            x, y = ev(cond[2], env), ev(cond[3], env)
+            if x is None or y is None or CMP[cond[1]](x, y) != bool(val):
+                ok = False
+                break
+        if not ok:
+            continue
+        x, y = ev(a, env), ev(b, env)
+        if x is None or y is None:
+            continue
+        if x * y > tr[1]:
+            return ("for example %s" % ", ".join("%s = %d" % (fmt(k)[:40], env[k]) for k in names),
+                    ", ".join("%s is %s" % (fmt(c)[:60], v) for c, v in rel[:5]) or "no guard")
+    return None
+
+
 def decide_arith(ctx, ob, freedom):
     """returns (verdict, detail) for one overflow / division obligation"""
     sym, iv = ctx.sym, ctx.iv
@@ -564,6 +717,12 @@ def decide_arith(ctx, ob, freedom):
             return "VIOLATION", "`%s %s %s` in %s: the operands range over %s and %s " \
                 "independently (pixel data / table entry), the result exceeds the type" % (
                     fmt(a), "+" if op == "Add" else "*", fmt(b), ob.ty, list(ra), list(rb))
+    if op == "Mul":
+        w = ordered_only(ctx, fn, facts, a, b, freedom, is_state, tr)
+        if w:
+            return "VIOLATION", "`%s * %s` in %s wraps (panics with overflow checks): %s satisfies " \
+                "every guard on the path (%s) and the product exceeds the type" % (
+                    fmt(a), fmt(b), ob.ty, w[0], w[1])
     if op in ("Add", "Mul"):
         if free_and_unrelated(a, b, op):
             sym_ = "+" if op == "Add" else "*"
